@@ -37,6 +37,8 @@ from pathlib import Path
 
 VERIF = Path(__file__).resolve().parent.parent
 REPO = Path(os.environ.get("VERIF_REPO", "/repo"))
+# evidence directory (overridden when a check is pointed at a seeded worktree, so that the committed evidence is not overwritten)
+EVID = Path(os.environ.get("VERIF_EVIDENCE_DIR", str(VERIF / "evidence")))
 SRC = REPO / "penguin" / "src" / "client" / "mod.rs"
 N_STEPS = int(os.environ.get("VERIF_C19_STEPS", "6"))
 MAXC = 4          # max_retry_count ranges over 0..MAXC (0 = never give up)
@@ -395,7 +397,7 @@ def main():
             scratch.mkdir(parents=True, exist_ok=True)
             rep, detail = native_replay(block_raw, facts, events, maxc, scratch)
             res["native_replay"] = dict(reproduced=rep, detail=detail[:600])
-            rp = VERIF / "evidence" / "replay" / "C19-retry_loop.json"
+            rp = EVID / "replay" / "C19-retry_loop.json"
             rp.parent.mkdir(parents=True, exist_ok=True)
             rp.write_text(json.dumps(res, indent=1))
             if rep:
@@ -414,7 +416,7 @@ def main():
     res["wall_s"] = round(time.time() - t0, 2)
     res["verdict"] = {0: "holds within the bounds", 1: "violation", 2: "inconclusive"}[rc]
     # merge into the evidence file written by the Kani part
-    evp = VERIF / "evidence" / "C19.json"
+    evp = EVID / "C19.json"
     try:
         ev = json.loads(evp.read_text())
         cov = ev.setdefault("coverage", {})
